@@ -36,6 +36,16 @@ type hnd struct {
 type env struct {
 	m protoreflect.Message
 	h map[protoreflect.FieldNumber]*hnd
+	// donors: the list / map / message value most recently handed to Set for a field. The caller
+	// keeps it, so what it reads as afterwards is part of the observable state.
+	d map[protoreflect.FieldNumber]*hnd
+}
+
+func (e *env) donate(fd protoreflect.FieldDescriptor, v protoreflect.Value) {
+	if e.d == nil {
+		e.d = map[protoreflect.FieldNumber]*hnd{}
+	}
+	e.d[fd.Number()] = &hnd{fd: fd, v: v}
 }
 
 func (e *env) release(fd protoreflect.FieldDescriptor) {
@@ -119,6 +129,7 @@ func genOps(md protoreflect.MessageDescriptor) []op {
 					}
 					e.m.Set(fdIn(e, fd), protoreflect.ValueOfList(nl))
 					e.release(fd)
+					e.donate(fd, protoreflect.ValueOfList(nl))
 					return ""
 				}})
 			}
@@ -126,6 +137,17 @@ func genOps(md protoreflect.MessageDescriptor) []op {
 				v := e.m.Mutable(fdIn(e, fd))
 				e.h[fd.Number()] = &hnd{fd: fd, v: v, held: true}
 				return fmt.Sprintf("valid=%v len=%d", v.List().IsValid(), v.List().Len())
+			}})
+			add(op{"Mutable(" + name + ").Append(y)", "Mutable.List.Append/" + shape, true, always, func(e *env) string {
+				// the usual one-liner: a view taken only for this append
+				l := e.m.Mutable(fdIn(e, fd)).List()
+				e.release(fd)
+				if isMsg {
+					l.Append(newElem(l, false))
+				} else {
+					l.Append(y)
+				}
+				return fmt.Sprint(l.Len())
 			}})
 			add(op{"h(" + name + ").Append(x)", "List.Append/" + shape, true, held, func(e *env) string {
 				l := e.h[fd.Number()].v.List()
@@ -204,6 +226,7 @@ func genOps(md protoreflect.MessageDescriptor) []op {
 					}
 					e.m.Set(fdIn(e, fd), protoreflect.ValueOfMap(nm))
 					e.release(fd)
+					e.donate(fd, protoreflect.ValueOfMap(nm))
 					return ""
 				}})
 			}
@@ -256,6 +279,7 @@ func genOps(md protoreflect.MessageDescriptor) []op {
 					}
 					e.release(fd)
 					e.m.Set(fdIn(e, fd), nv)
+					e.donate(fd, nv)
 					return ""
 				}})
 			}
@@ -416,6 +440,21 @@ func battery(e *env, viaSlow bool) []string {
 			return rv(h.fd, h.v, viaSlow)
 		}))
 	}
+	out = append(out, donorReads(e, viaSlow)...)
+	return out
+}
+
+func donorReads(e *env, viaSlow bool) []string {
+	var out []string
+	var ds []int
+	for n := range e.d {
+		ds = append(ds, int(n))
+	}
+	sort.Ints(ds)
+	for _, n := range ds {
+		h := e.d[protoreflect.FieldNumber(n)]
+		out = append(out, fmt.Sprintf("value-earlier-passed-to-Set(%s)=", h.fd.Name())+try(func() string { return rv(h.fd, h.v, viaSlow) }))
+	}
 	return out
 }
 
@@ -483,6 +522,7 @@ func step(t *threeEnvs, o *op, judgeState bool) stepResult {
 	}
 	sort.Ints(hs)
 	key += fmt.Sprint(hs)
+	key += "|" + strings.Join(donorReads(t.dyn, false), ";") + "|" + strings.Join(donorReads(t.slow, true), ";")
 	// state of the generated message: through its own API and through struct reflection over its struct
 	cf, pf := tryP(func() string { return enum.Canon(t.fast.m, false) })
 	if cf != cd {
@@ -519,8 +559,14 @@ func step(t *threeEnvs, o *op, judgeState bool) stepResult {
 	return stepResult{state: key}
 }
 
-func runHistory(md protoreflect.MessageDescriptor, ops []op, byName map[string]int, hist []int) (*threeEnvs, bool) {
+// runHistory replays a history on fresh objects. With observe set, the generated message is also read,
+// sized and marshalled after every step (reads are supposed to be pure: a cache they fill must not
+// change what a later step sees).
+func runHistory(md protoreflect.MessageDescriptor, ops []op, byName map[string]int, hist []int, observe bool) (*threeEnvs, bool) {
 	t := fresh(md)
+	if observe {
+		observeFast(t)
+	}
 	for _, oi := range hist {
 		o := &ops[oi]
 		if !o.enabled(t.dyn) {
@@ -530,8 +576,20 @@ func runHistory(md protoreflect.MessageDescriptor, ops []op, byName map[string]i
 		if r.pruned || r.violation != "" {
 			return t, false
 		}
+		if observe {
+			observeFast(t)
+		}
 	}
 	return t, true
+}
+
+func observeFast(t *threeEnvs) {
+	hz.Catch(func() {
+		battery(t.fast, false)
+		proto.Size(t.fastPtr)
+		proto.MarshalOptions{Deterministic: true}.Marshal(t.fastPtr)
+		proto.MarshalOptions{}.Marshal(t.fastPtr)
+	})
 }
 
 func names(ops []op, hist []int) []string {
@@ -557,7 +615,7 @@ func search(h *hz.H, md protoreflect.MessageDescriptor, maxDepth int, st *search
 	var mu sync.Mutex
 	frontier := [][]int{{}}
 	t0 := fresh(md)
-	seen[enum.Canon(t0.dyn.m, false)+"|[]"] = true
+	seen[enum.Canon(t0.dyn.m, false)+"|[]||"] = true
 	st.states.Add(1)
 	for depth := 1; depth <= maxDepth; depth++ {
 		var next [][]int
@@ -566,7 +624,7 @@ func search(h *hz.H, md protoreflect.MessageDescriptor, maxDepth int, st *search
 			parent := frontier[i]
 			for oi := range ops {
 				o := &ops[oi]
-				t, ok := runHistory(md, ops, byName, parent)
+				t, ok := runHistory(md, ops, byName, parent, false)
 				if !ok {
 					return // cannot happen: parents were reached without pruning; defensive
 				}
@@ -574,9 +632,19 @@ func search(h *hz.H, md protoreflect.MessageDescriptor, maxDepth int, st *search
 					continue
 				}
 				st.transitions.Add(1)
-				st.traces.Add(1)
+				st.traces.Add(2)
 				r := step(t, o, true)
 				hist := append(append([]int(nil), parent...), oi)
+				if r.violation == "" && !r.pruned && len(parent) > 0 {
+					// the same history with every intermediate state read, sized and marshalled
+					if t2, ok2 := runHistory(md, ops, byName, parent, true); ok2 {
+						if r2 := step(t2, o, true); r2.violation != "" {
+							r2.violation = "(with Size/Marshal/reads of the generated message after every earlier step) " + r2.violation
+							r2.oracle += "+observed-prefix"
+							r = r2
+						}
+					}
+				}
 				if r.pruned {
 					if r.invalid {
 						st.invalid.Add(1)
@@ -650,11 +718,14 @@ func runC08(h *hz.H) {
 			}
 			hist = append(hist, i)
 		}
-		t, ok := runHistory(md, ops, byName, hist[:len(hist)-1])
-		if ok {
-			o := &ops[hist[len(hist)-1]]
-			if r := step(t, o, true); r.violation != "" {
-				h.Violate(fmt.Sprintf("C08/%s/%s@%s", r.oracle, o.class, c.Type), fmt.Sprintf("history %v: %s", c.History, r.violation), c)
+		for _, observe := range []bool{false, true} {
+			t, ok := runHistory(md, ops, byName, hist[:len(hist)-1], observe)
+			if ok {
+				o := &ops[hist[len(hist)-1]]
+				if r := step(t, o, true); r.violation != "" {
+					h.Violate(fmt.Sprintf("C08/%s/%s@%s", r.oracle, o.class, c.Type), fmt.Sprintf("history %v (observed prefix: %v): %s", c.History, observe, r.violation), c)
+					break
+				}
 			}
 		}
 		h.Eval(true, 1)
@@ -696,6 +767,6 @@ func runC08(h *hz.H) {
 	if st.states.Load() < 500 {
 		h.InternalError("vacuous: fewer than 500 distinct reference states")
 	}
-	h.Rep.Rule = "breadth-first search over histories of mutating protoreflect operations (Set with 2 values per scalar / 0-2 element lists / 0-1 entry maps / empty and filled messages, Clear, Mutable keeping a live view, SetUnknown; on a live view: Append, AppendMutable, Set, Truncate, Map.Set/Clear/Mutable, nested Set/Clear), deduplicated on (canonical reference state, set of live views); every transition replayed on fresh fast / slow / dyn objects and followed by the full read battery (Has, Get, NewField, WhichOneof, Range, GetUnknown, out-of-range list read, live views, struct state, deterministic bytes); non-trivial = every transition; distinct = hash(type, history)"
+	h.Rep.Rule = "breadth-first search over histories of mutating protoreflect operations (Set with 2 values per scalar / 0-2 element lists / 0-1 entry maps / empty and filled messages, Clear, Mutable keeping a live view, SetUnknown; on a live view: Append, AppendMutable, Set, Truncate, Map.Set/Clear/Mutable, nested Set/Clear), deduplicated on (canonical reference state, set of live views, what the values earlier handed to Set read as); every transition replayed on fresh fast / slow / dyn objects, once plainly and once with the generated message read, sized and marshalled after every earlier step, and followed by the full read battery (Has, Get, NewField, WhichOneof, Range, GetUnknown, out-of-range list read, live views, values earlier handed to Set, struct state, deterministic bytes); non-trivial = every transition; distinct = hash(type, history)"
 	h.Rep.Assumptions = []string{"reference models: dynamicpb and protobuf-go struct reflection over a second struct; a step is judged only when they agree with each other (otherwise counted as pruned_impl_defined and not extended)", "views whose field was Cleared/Set again (stale views) are released by the harness: their behaviour is implementation-defined in protobuf-go"}
 }
